@@ -122,6 +122,25 @@ class NT1(typing.NamedTuple):
 NTc = collections.namedtuple("NTc", ["p", "q", "r"])
 
 
+class NTsub(NT2):
+    """a subclass of a typing.NamedTuple is still a named tuple"""
+
+    def extra(self):
+        return 1
+
+
+class NTcsub(collections.namedtuple("NTcsubBase", ["p", "q"])):
+    __slots__ = ()
+
+
+_T = typing.TypeVar("_T")
+
+
+class NTgen(typing.NamedTuple, typing.Generic[_T]):
+    first: _T
+    second: int = 0
+
+
 @st.composite
 def case(draw):
     cat = draw(st.sampled_from(["mapping", "structured", "namedtuple", "pairs", "nonpairs", "mixed", "text", "empty"]))
@@ -135,8 +154,8 @@ def case(draw):
         vals = [draw(st.one_of(two_elem, anyval)) for _ in range(n)]
         return {"cat": cat, "kind": kind, "content": vals}
     if cat == "namedtuple":
-        kind = draw(st.sampled_from(["NT2", "NT1", "NTc"]))
-        n = {"NT2": 2, "NT1": 1, "NTc": 3}[kind]
+        kind = draw(st.sampled_from(["NT2", "NT1", "NTc", "NTsub", "NTcsub", "NTgen"]))
+        n = {"NT2": 2, "NT1": 1, "NTc": 3, "NTsub": 2, "NTcsub": 2, "NTgen": 2}[kind]
         vals = [draw(st.one_of(two_elem, anyval)) for _ in range(n)]
         return {"cat": cat, "kind": kind, "content": vals}
     kind = draw(st.sampled_from(["list", "tuple", "deque", "set", "frozenset", "generator", "iter", "map", "dictitems"]))
@@ -201,7 +220,7 @@ def build(c):
             pairs = [(n, val) for n, val in zip(names, v) if not n.startswith("_")]
         return x, pairs, [p[1] for p in pairs], True, None
     if cat == "namedtuple":
-        cls = {"NT2": NT2, "NT1": NT1, "NTc": NTc}[kind]
+        cls = {"NT2": NT2, "NT1": NT1, "NTc": NTc, "NTsub": NTsub, "NTcsub": NTcsub, "NTgen": NTgen}[kind]
         x = cls(*content)
         return x, list(zip(cls._fields, content)), list(content), True, None
     if cat == "text":
